@@ -44,7 +44,8 @@ META = {
         "R1: exception-escape closure of options_to_items - only TokenizeError may leave it; escape-table look-ups are dominated "
         "by a membership test within the table's keys; int()/chr() on scanned text are discharged by the module's own character "
         "facts (digit facts followed through helper parameters; hex escapes validated by a range(N) loop over peek(k), by "
-        "any()/all() or a for-loop over the prefix(N) slice, plus the code-point range test). "
+        "any()/all() or a for-loop over the prefix(N) slice, plus the code-point range test); an `assert <pending key> is not None` in "
+        "the value-token branch of _to_tokens is discharged by the protocol invariant of R6, and only while that invariant is proved. "
         "R2: every loop terminates: each cyclic path confined to the loop body strictly advances the cursor, a look-ahead counter "
         "or the exit flag; conditional advances (_scan_line_break) are decided from character-class facts and per-function "
         "summaries (must-advance, advancing set, truthy-implies-advanced); conditional-expression offsets count when every arm "
@@ -62,7 +63,8 @@ META = {
         "and position stores; boolean flag operands) that must equal those of yaml/scanner.py and yaml/reader.py modulo a tabled "
         "list of deliberate deviations. Both sides are first brought into a normal form: stream helpers inlined (also when "
         "called inside an emission, with early returns), conditional expressions and `flag = <comparison>` as branches, "
-        "single-use locals forwarded, raw buffer accesses of the stream class read as peek()/prefix(), the three spellings of "
+        "single-use locals forwarded, loop exit flags and bare returns of procedures ignored, token factories that never see the "
+        "stream ignored, raw buffer accesses of the stream class read as peek()/prefix(), the three spellings of "
         "'run of characters in S', the spellings of 'next N characters are "
         "all in S' and `prefix(k) == const` vs per-offset peeks unified, PyYAML's flow-context code read with flow_level == 0. "
         "A missing/replaced entry or an extra unconditional emission/effect is a violation; a conditional pure addition is "
@@ -73,7 +75,10 @@ META = {
         "context_mark guarded against None, and the offsets reach clone() un-crossed whenever either is non-zero. "
         "R6: the state machine around the scanners: block/quoted scalars are dispatched on exactly the characters PyYAML's "
         "fetch_more_tokens uses and get that character as style; scanners left/right of ':' get is_key True/False; every "
-        "pending key reaches a yield before it is overwritten or the generator ends and none is yielded twice; the result pair "
+        "pending key reaches a yield before it is overwritten or the generator ends and none is yielded twice; the protocol "
+        "invariant 'a value token arrives only while a key is pending' is proved from both sides (_tokenize: no CFG path from the "
+        "start or from a value yield to a value yield avoids a key yield, is_key decides the token class; _to_tokens: every key "
+        "token is stored, other tokens leave the pending key alone, it is reset only after the pair was yielded); the result pair "
         "is (key.value, value.value or ''); every value options_to_items returns is built in the iteration over _to_tokens "
         "(no second, unscanned way of producing pairs)."
     ),
